@@ -234,7 +234,13 @@ func modeRace(c *Ctx) {
 			})
 		},
 	}
-	c.SetField(api, "Middlewares", mws)
+	// registered one by one, as applications do: the slice keeps spare capacity
+	grown := make([]func(http.Handler) http.Handler, 0, 1)
+	for _, m := range mws {
+		grown = append(grown, m)
+	}
+	grown = append(grown, mws[0])
+	c.SetField(api, "Middlewares", grown)
 	if fn, ok := c.Reg.Funcs["SpecFileHandler"]; ok {
 		c.SetField(api, "SpecFileHandler", reflect.ValueOf(fn).Call(nil)[0].Interface())
 	}
@@ -301,6 +307,16 @@ func modeRace(c *Ctx) {
 						c.Stat("spec_requests", 1)
 						if w.Body.String() != specWant {
 							c.Viol("isolation", "the spec route served something else than the spec under concurrency", "GET spec", len(specWant), w.Body.Len())
+						}
+						continue
+					}
+					if rng.Intn(15) == 0 {
+						// unrouted requests (NotFoundHandler left nil) concurrently with everything else
+						w := newRec()
+						h.ServeHTTP(w, NewRequest("GET", c.Base+"/no/such/path/anywhere/at/all", "", nil, nil))
+						c.Stat("unrouted_requests", 1)
+						if w.Status != 404 {
+							c.Viol("isolation", "an unrouted request was not answered 404 under concurrency", "GET /no/such/path/anywhere/at/all", 404, w.Status)
 						}
 						continue
 					}
